@@ -4,6 +4,7 @@ package main
 // are anchored in.
 
 import (
+	"go/token"
 	"go/types"
 	"strings"
 
@@ -82,7 +83,7 @@ func (e *Engine) ruleDiscardedArithmetic(r *Report, rule string, pkgs ...string)
 var sentinelSearch = map[string]bool{
 	"bytes.IndexByte": true, "bytes.Index": true, "bytes.LastIndex": true, "bytes.LastIndexByte": true, "bytes.IndexAny": true, "bytes.IndexRune": true, "bytes.IndexFunc": true,
 	"strings.Index": true, "strings.IndexByte": true, "strings.LastIndex": true, "strings.LastIndexByte": true, "strings.IndexAny": true, "strings.IndexRune": true, "strings.IndexFunc": true,
-	"slices.Index": true, "slices.IndexFunc": true,
+	"slices.Index": true, "slices.IndexFunc": true, "golang.org/x/exp/slices.Index": true, "golang.org/x/exp/slices.IndexFunc": true, "slices.BinarySearch": false,
 }
 
 func sentinelCall(v ssa.Value) *ssa.Call {
@@ -92,7 +93,13 @@ func sentinelCall(v ssa.Value) *ssa.Call {
 		return nil
 	}
 	f := c.Common().StaticCallee()
-	if f == nil || f.Pkg == nil {
+	if f == nil {
+		return nil
+	}
+	if o := f.Origin(); o != nil {
+		f = o // an instance of a generic function (slices.IndexFunc[[]string string])
+	}
+	if f.Pkg == nil {
 		return nil
 	}
 	name := f.Pkg.Pkg.Path() + "." + f.Name()
@@ -147,4 +154,220 @@ func (e *Engine) sentinelIndexSites(pkgFilter func(string) bool, report func(fn 
 			}
 		})
 	}
+}
+
+// ---------- writes to a copy that nobody reads ----------
+
+// lostStructWrites: a struct local that is only ever written (whole, or field by field) and never read, passed on or
+// stored anywhere. The typical source is `for _, x := range list { x.Field = … }` over a slice of struct values: the loop
+// variable is a copy, the element in the slice keeps its old value.
+func (e *Engine) lostStructWrites(pkgFilter func(string) bool, report func(fn *ssa.Function, a *ssa.Alloc, st *ssa.Store, field string)) int {
+	n := 0
+	for _, fn := range e.Funcs {
+		pp := fnPkgPath(fn)
+		if isAuxPkg(pp) || !pkgFilter(pp) {
+			continue
+		}
+		allInstrs(fn, func(i ssa.Instruction) {
+			a, ok := i.(*ssa.Alloc)
+			if !ok || a.Heap || a.Referrers() == nil {
+				return
+			}
+			stt, ok := a.Type().(*types.Pointer).Elem().Underlying().(*types.Struct)
+			if !ok {
+				return
+			}
+			n++
+			// reads of the struct (whole or a field, or its address escaping) and the stores that overwrite it as a whole
+			var reads []ssa.Instruction
+			whole := map[ssa.Instruction]bool{}
+			type fstore struct {
+				st   *ssa.Store
+				name string
+			}
+			var fstores []fstore
+			for _, r := range *a.Referrers() {
+				switch x := r.(type) {
+				case *ssa.DebugRef:
+				case *ssa.Store:
+					if x.Addr == ssa.Value(a) {
+						whole[x] = true
+					} else {
+						reads = append(reads, x)
+					}
+				case *ssa.FieldAddr:
+					for _, r2 := range *x.Referrers() {
+						switch y := r2.(type) {
+						case *ssa.DebugRef:
+						case *ssa.Store:
+							if y.Addr == ssa.Value(x) {
+								nm := ""
+								if x.Field < stt.NumFields() {
+									nm = stt.Field(x.Field).Name()
+								}
+								fstores = append(fstores, fstore{y, nm})
+							} else {
+								reads = append(reads, y)
+							}
+						default:
+							reads = append(reads, r2)
+						}
+					}
+				default:
+					reads = append(reads, r)
+				}
+			}
+			isRead := map[ssa.Instruction]bool{}
+			for _, rd := range reads {
+				isRead[rd] = true
+			}
+			for _, fs := range fstores {
+				// can any read happen after this store before the struct is overwritten as a whole?
+				hit := ReachAvoiding(fn, fs.st, func(i ssa.Instruction) bool { return isRead[i] }, func(i ssa.Instruction) bool { return whole[i] })
+				if hit == nil {
+					report(fn, a, fs.st, fs.name)
+					break
+				}
+			}
+
+		})
+	}
+	return n
+}
+
+func (e *Engine) ruleLostStructWrites(r *Report, rule string, pkgs ...string) {
+	filter := func(p string) bool {
+		for _, s := range pkgs {
+			if strings.Contains(p, s) {
+				return true
+			}
+		}
+		return false
+	}
+	bad := 0
+	n := e.lostStructWrites(filter, func(fn *ssa.Function, a *ssa.Alloc, st *ssa.Store, field string) {
+		bad++
+		r.Fail(rule, e.FnKey(fn)+" write to "+a.Comment+"."+field, e.InstrPos(st), "field "+field+" of the local struct `"+a.Comment+"` is assigned but the struct is never read afterwards: it is a copy (e.g. the loop variable of a range over a slice of struct values), so the update is lost — an amount merged into it disappears from the record although the coins were collected")
+	})
+	if bad == 0 {
+		r.Ok(rule, "struct copies", "", "no struct local is written without being read")
+	}
+	r.Note("%s: %d struct locals examined", rule, n)
+}
+
+// ---------- a search result compared with > 0 ----------
+
+// sentinelMiscompare: `i > 0`, `i <= 0`, `i < 1`, `i >= 1` on the result of a search that returns -1 on a miss and 0 for a hit
+// at the first position: the first position is treated as "not found".
+func (e *Engine) ruleSentinelMiscompare(r *Report, rule string, pkgs ...string) {
+	filter := func(p string) bool {
+		for _, s := range pkgs {
+			if strings.Contains(p, s) {
+				return true
+			}
+		}
+		return false
+	}
+	bad, n := 0, 0
+	for _, fn := range e.Funcs {
+		pp := fnPkgPath(fn)
+		if isAuxPkg(pp) || !filter(pp) {
+			continue
+		}
+		allInstrs(fn, func(i ssa.Instruction) {
+			b, ok := i.(*ssa.BinOp)
+			if !ok {
+				return
+			}
+			var c *ssa.Call
+			var k int64
+			var isK bool
+			op := b.Op
+			if c = sentinelCall(b.X); c != nil {
+				k, isK = constInt(b.Y)
+			} else if c = sentinelCall(b.Y); c != nil {
+				k, isK = constInt(b.X)
+				switch op {
+				case token.GTR:
+					op = token.LSS
+				case token.LSS:
+					op = token.GTR
+				case token.GEQ:
+					op = token.LEQ
+				case token.LEQ:
+					op = token.GEQ
+				}
+			}
+			if c == nil || !isK {
+				return
+			}
+			n++
+			wrong := (k == 0 && (op == token.GTR || op == token.LEQ)) || (k == 1 && (op == token.GEQ || op == token.LSS))
+			if wrong {
+				bad++
+				r.Fail(rule, e.FnKey(fn)+" "+callName(c)+" compared", e.InstrPos(b), "the result of "+callName(c)+" is compared so that 0 counts as `not found`: the search returns -1 on a miss and 0 for a match at the first position, so a match in first place is ignored")
+			}
+		})
+	}
+	if bad == 0 {
+		r.Ok(rule, "search results compared", "", "no search result is compared with > 0 / <= 0")
+	}
+	r.Note("%s: %d comparisons of search results examined", rule, n)
+}
+
+// ---------- Trim with a cutset that looks like a prefix ----------
+
+// ruleTrimCutset: strings.TrimLeft / TrimRight / Trim take a SET of characters; a constant argument of two or more different
+// non-space characters is almost always meant as a prefix / suffix ("0x"), and strips more than that (leading zeros of a hex
+// selector).
+func (e *Engine) ruleTrimCutset(r *Report, rule string, pkgs ...string) {
+	filter := func(p string) bool {
+		for _, s := range pkgs {
+			if strings.Contains(p, s) {
+				return true
+			}
+		}
+		return false
+	}
+	bad, n := 0, 0
+	for _, fn := range e.Funcs {
+		pp := fnPkgPath(fn)
+		if isAuxPkg(pp) || !filter(pp) {
+			continue
+		}
+		allCalls(fn, func(c ssa.CallInstruction) {
+			f := c.Common().StaticCallee()
+			if f == nil || f.Pkg == nil || (f.Pkg.Pkg.Path() != "strings" && f.Pkg.Pkg.Path() != "bytes") {
+				return
+			}
+			if f.Name() != "TrimLeft" && f.Name() != "TrimRight" && f.Name() != "Trim" {
+				return
+			}
+			a := c.Common().Args
+			if len(a) != 2 {
+				return
+			}
+			cut, ok := constString(a[1])
+			if !ok {
+				return
+			}
+			n++
+			distinct := map[rune]bool{}
+			space := true
+			for _, ch := range cut {
+				distinct[ch] = true
+				if ch != ' ' && ch != '\t' && ch != '\n' && ch != '\r' {
+					space = false
+				}
+			}
+			if len(distinct) >= 2 && !space {
+				bad++
+				r.Fail(rule, e.FnKey(fn)+" "+f.Name()+"(\""+cut+"\")", e.InstrPos(c), f.Name()+" removes every leading/trailing character that is IN the set \""+cut+"\", not the prefix/suffix \""+cut+"\": e.g. the leading zeros of a hex value after its 0x — the normalised value then no longer equals what it is compared with")
+			}
+		})
+	}
+	if bad == 0 {
+		r.Ok(rule, "trim cutsets", "", "no Trim* call with a multi-character cutset")
+	}
+	r.Note("%s: %d Trim* calls with a constant cutset examined", rule, n)
 }
